@@ -5,6 +5,7 @@ Writes /verif/seeded/RESULTS.json and RESULTS.md. Usage: run_seeded.py [name ...
 import json, os, subprocess, sys, re
 SEED = "/verif/seeded"
 EXTRA = {"C09-b2": ["C14"], "C10-a3": ["C17"]}  # detected by a neighbouring property's check
+TIER = {"C10-w2-3": "heavy"}  # needs a scenario that only the thorough tier draws ("heavy" = that scenario alone, 80 runs)
 def sh(cmd, cwd="/verif", timeout=3600):
     p = subprocess.run(cmd, cwd=cwd, shell=True, stdout=subprocess.PIPE, stderr=subprocess.STDOUT, timeout=timeout)
     return p.returncode, p.stdout.decode(errors="replace")
@@ -27,9 +28,10 @@ def main():
         try:
             res = {"property": prop, "applies": True, "repo_head": head, "checks": {}}
             for chk in [prop] + EXTRA.get(n, []):
-                rc, out = sh("./check %s quick" % chk)
+                tier = TIER.get(n, "quick")
+                rc, out = sh("./check %s %s" % (chk, tier))
                 keys = sorted(set(re.findall(r"key=(\S+)", out)))
-                res["checks"][chk] = {"exit": rc, "violation_keys": keys[:6]}
+                res["checks"][chk] = {"exit": rc, "violation_keys": keys[:6], "tier": tier}
             res["detected"] = any(c["exit"] == 1 for c in res["checks"].values())
             res["detected_by"] = [k for k, c in res["checks"].items() if c["exit"] == 1]
             results[n] = res
@@ -38,13 +40,13 @@ def main():
             sh("git -C /repo checkout -- .")
         json.dump(results, open(path, "w"), indent=1)
     with open(os.path.join(SEED, "RESULTS.md"), "w") as f:
-        f.write("| seeded change | property | detected by (quick tier) | first violation key |\n|---|---|---|---|\n")
+        f.write("| seeded change | property | detected by (quick tier unless noted) | first violation key |\n|---|---|---|---|\n")
         for n in sorted(results):
             r = results[n]
             if not r.get("applies"):
                 f.write("| %s | %s | (patch no longer applies) | |\n" % (n, r["property"])); continue
             keys = [k for c in r["checks"].values() for k in c["violation_keys"]]
-            f.write("| %s | %s | %s | %s |\n" % (n, r["property"], ", ".join(r["detected_by"]) or "**missed**", (keys[0] if keys else "").replace("|", "\\|")))
+            f.write("| %s | %s | %s | %s |\n" % (n, r["property"], ((", ".join(r["detected_by"]) + "".join(" (%s tier)" % c["tier"] for c in r["checks"].values() if c.get("tier", "quick") != "quick")) if r["detected_by"] else "**missed**"), (keys[0] if keys else "").replace("|", "\\|")))
     sh("rm -rf /verif/replays")
 if __name__ == "__main__":
     main()
